@@ -236,6 +236,14 @@ func newQueue(maxPath int, deadline time.Time) *WorkQueue {
 	return q
 }
 
+// stopNow makes pop hand out no further paths (used when a native callee ran away).
+func (q *WorkQueue) stopNow() {
+	q.mu.Lock()
+	q.deadline = time.Now().Add(-time.Second)
+	q.mu.Unlock()
+	q.cond.Broadcast()
+}
+
 func (q *WorkQueue) push(p []Decision) {
 	q.mu.Lock()
 	q.items = append(q.items, p)
